@@ -100,7 +100,7 @@ def main(pid, argv):
     ok, out, genbin = build_generator()
     if not ok:
         ck.broken.append("the generator does not build: " + out[-400:])
-        return ck.finish()
+        return ck.finish(level='translation_validation')
     rng = ck.rng
     thorough = ck.tier == "thorough"
     idls = []
@@ -196,4 +196,5 @@ def main(pid, argv):
     ck.extra["programs"] = len(texts)
     for t in texts[:: max(1, len(texts) // 5)]:
         ck.sample(dict(description=t.decode("latin-1")[:200]))
-    return ck.finish()
+    ck.extra.setdefault('disagreements_checked', ck.extra.get('failing_inputs_total', 0))
+    return ck.finish(level='translation_validation')
